@@ -4,6 +4,7 @@ package main
 
 import (
 	"fmt"
+	"go/constant"
 	"go/token"
 	"go/types"
 	"os"
@@ -37,6 +38,7 @@ type Program struct {
 	groundErr     error
 	usedGround    map[string]bool
 	inlined       map[string]bool
+	regexPatterns map[string]string // "g:pkg.name" -> pattern text, for globals set by regexp.MustCompile in package init
 }
 
 func loadProgram(root string) (*Program, error) {
@@ -80,7 +82,38 @@ func loadProgram(root string) (*Program, error) {
 			p.funcs[fullKey(fn)] = fn
 		}
 	}
+	p.regexPatterns = map[string]string{}
+	for _, fn := range p.funcs {
+		if fn.Name() != "init" {
+			continue
+		}
+		for _, b := range fn.Blocks {
+			for _, in := range b.Instrs {
+				st, ok := in.(*ssa.Store)
+				if !ok {
+					continue
+				}
+				g, ok := st.Addr.(*ssa.Global)
+				if !ok {
+					continue
+				}
+				call, ok := st.Val.(*ssa.Call)
+				if !ok {
+					continue
+				}
+				if cal := call.Call.StaticCallee(); cal == nil || cal.String() != "regexp.MustCompile" || len(call.Call.Args) != 1 {
+					continue
+				}
+				if k, ok := call.Call.Args[0].(*ssa.Const); ok && k.Value != nil {
+					p.regexPatterns["g:"+globalKey(g)] = constant.StringVal(k.Value)
+				}
+			}
+		}
+	}
 	p.cs = loadContracts(root)
+	for g := range p.regexPatterns {
+		p.cs.Frozen[strings.TrimPrefix(g, "g:")] = true
+	}
 	for k, c := range p.cs.Contracts {
 		p.contracts[k] = c
 		if !c.IsLemma {
